@@ -1457,6 +1457,7 @@ impl<'a> Run<'a> {
             }
         }
         for n in ns {
+            self.out.count(&format!("nesting:{}", n));
             self.out.class(format!("{}:{}", n, if all_ok { "ok" } else { "bad" }));
         }
     }
@@ -1486,6 +1487,17 @@ fn main() {
         for site in [Site::Fmt, Site::Source] {
             let (v, text) = verdict(&t, 0, site, w);
             println!("{:?}@{}:\n{}\n=> {:?}", site, w, text, v);
+        }
+        return;
+    }
+    if let Some(i) = args.extra.iter().position(|a| a == "--vmprobe") {
+        // debugging aid: typecheck a program in a real VM and print the diagnostics
+        use gluon::ThreadExt;
+        let vm = gv::vm::new_vm();
+        vm.get_database_mut().set_implicit_prelude(false);
+        match vm.typecheck_str("probe", &args.extra[i + 1], None) {
+            Ok((_, t)) => println!("type: {}", t),
+            Err(e) => println!("error: {}", e),
         }
         return;
     }
